@@ -27,6 +27,22 @@ def x_processor_consts():
     if not mt:
         raise Broken("processor.go: cleanup ticker not found")
     tick = dur(mt.group(1))
+    # the Run loop's select: which channel feeds which handler (the model's op constructors, one atomic step each)
+    mrun = re.search(r'func \(p \*Processor\) Run\(ctx context\.Context\) error \{(.*?)\n\}\n', pr, re.S)
+    if not mrun:
+        raise Broken("processor.go: Run not found")
+    body = re.sub(r'//[^\n]*', '', mrun.group(1))
+    cases = re.findall(r'case ([^\n]+):\n(.*?)(?=\n\t\tcase |\n\t\t\}\n)', body, re.S)
+    got = []
+    for head, blk in cases:
+        calls = re.findall(r'p\.(handle\w+|gst\.Set)\(', blk)
+        got.append((re.sub(r'\s+', ' ', head.strip()), tuple(calls)))
+    want = [("<-ctx.Done()", ()), ("p.gs = <-p.setC", ("gst.Set",)), ("k := <-p.lockC", ("handleMessage",)), ("v := <-p.injectC", ("handleInjection",)),
+            ("m := <-p.obsvC", ("handleObservation",)), ("m := <-p.signedInC", ("handleInboundSignedVAAWithQuorum",)), ("<-p.cleanup.C", ("handleCleanup",))]
+    if sorted(got) != sorted(want):
+        raise Broken("processor.go: Run loop select does not have the expected channel -> handler dispatch: %r" % (got,))
+    if re.search(r'\bgo\s+(func|p\.)', body):
+        raise Broken("processor.go: Run loop spawns goroutines; the model assumes one atomic step per handler")
     # the switch of handleCleanup, in source order
     sw = cl[cl.index("switch {"):]
     cases = re.findall(r'\n\t\tcase ([^\n]+):\n', sw)
